@@ -230,6 +230,7 @@ package cl
 //@ func cl.(*UnwindProtect).Call
 //@   property C07
 //@   option eval-once
+//@   at-eval cleanup-forms-run-deferred: $slot >= 1 ==> $deferred
 //@   ensures cleanup-once: $n == len(args) && slots_in_order(s)
 //@   ensures value: result == $eres[0]
 //@   loop i<len(args): invariant cleanup: $n == i && i <= len(args) && slots_in_order(s) && $n >= 1
